@@ -86,6 +86,8 @@ func runC15(c *Ctx) {
 		return
 	}
 	c.c15Chunk(stage)
+	c.chunkClassification(stage)
+	c.recordPerFile()
 	c.c15Assemble(stage)
 	c.c15ControlFrame(parseMsg)
 	c.c15StreamHeaders()
@@ -1300,4 +1302,129 @@ func (c *Ctx) familyOf(fn *ssa.Function) []*ssa.Function {
 	}
 	add(fn, 0)
 	return out
+}
+
+// chunkClassification: the chunk step tells its caller two different things and the read loop acts on them: "this is
+// not a chunk" (the control-frame parser gets the buffer) and "a chunk has started but is not complete" (wait for more
+// data). Decided by following the two probe results through the control flow of the chunk step:
+// every path on which the marker probe answered false ends in the not-a-chunk error, every path on which the
+// minimum-header probe answered false ends in the wait error.
+func (c *Ctx) chunkClassification(stage *ssa.Function) {
+	R := c.R
+	R.Rules["T.classify"] = "the chunk step answers 'not a chunk' exactly when the marker probe (HasStreamData) fails, and 'wait for more data' when the marker is there but the header is still incomplete (HasMinHeadLen fails): a started chunk whose header is split across reads is never handed to the control-frame parser (a 0x7e inside the partial header would be taken for a frame delimiter and abort the session)"
+	type probe struct {
+		method, want, other, what string
+	}
+	probes := []probe{
+		{"HasStreamData", "_errNotStreamData", "ErrInsufficientDataLen", "the buffer does not start with the chunk marker: the not-a-chunk error"},
+		{"HasMinHeadLen", "ErrInsufficientDataLen", "_errNotStreamData", "a chunk has started but its header is incomplete: the wait-for-more-data error"},
+	}
+	for _, pr := range probes {
+		n := 0
+		for _, f := range c.familyOf(stage) {
+			for _, b := range f.Blocks {
+				for i, ins := range b.Instrs {
+					call, isC := ins.(*ssa.Call)
+					if !isC || !call.Call.IsInvoke() || call.Call.Method.Name() != pr.method {
+						continue
+					}
+					n++
+					var bad []string
+					nRet := 0
+					type key struct {
+						b, prev *ssa.BasicBlock
+					}
+					seen := map[key]bool{}
+					var walk func(blk, prev *ssa.BasicBlock, from int, env map[ssa.Value]bool)
+					walk = func(blk, prev *ssa.BasicBlock, from int, env map[ssa.Value]bool) {
+						if from == 0 {
+							if seen[key{blk, prev}] {
+								return
+							}
+							seen[key{blk, prev}] = true
+						}
+						e2 := map[ssa.Value]bool{}
+						for k, v := range env {
+							e2[k] = v
+						}
+						env = e2
+						val := func(v ssa.Value) (bool, bool) {
+							if k, isK := v.(*ssa.Const); isK && k.Value != nil && k.Value.Kind() == constant.Bool {
+								return constant.BoolVal(k.Value), true
+							}
+							x, ok := env[v]
+							return x, ok
+						}
+						for _, i2 := range blk.Instrs[from:] {
+							switch x := i2.(type) {
+							case *ssa.Phi:
+								for ei, p := range blk.Preds {
+									if p == prev {
+										if v, ok := val(x.Edges[ei]); ok {
+											env[x] = v
+										}
+									}
+								}
+							case *ssa.UnOp:
+								if x.Op == token.NOT {
+									if v, ok := val(x.X); ok {
+										env[x] = !v
+									}
+								}
+							case *ssa.If:
+								if v, ok := val(x.Cond); ok {
+									if v {
+										walk(blk.Succs[0], blk, 0, env)
+									} else {
+										walk(blk.Succs[1], blk, 0, env)
+									}
+								} else {
+									walk(blk.Succs[0], blk, 0, env)
+									walk(blk.Succs[1], blk, 0, env)
+								}
+								return
+							case *ssa.Jump:
+								walk(blk.Succs[0], blk, 0, env)
+								return
+							case *ssa.Return:
+								nRet++
+								if len(x.Results) == 0 {
+									bad = append(bad, c.P.RelPos(x.Pos()))
+									return
+								}
+								rv := x.Results[len(x.Results)-1]
+								// a named / defer-spilled result: the value stored last before the return, in this block
+								if ld, isLd := rv.(*ssa.UnOp); isLd {
+									if cell, isAl := ld.X.(*ssa.Alloc); isAl {
+										for k := len(blk.Instrs) - 1; k >= 0; k-- {
+											if st, isSt := blk.Instrs[k].(*ssa.Store); isSt && st.Addr == ssa.Value(cell) {
+												rv = st.Val
+												break
+											}
+										}
+									}
+								}
+								if !c.mentionsGlobal(rv, pr.want) || c.mentionsGlobal(rv, pr.other) {
+									bad = append(bad, c.P.RelPos(x.Pos()))
+								}
+								return
+							}
+						}
+					}
+					walk(b, nil, i+1, map[ssa.Value]bool{call: false})
+					st, d := report.Discharged, ""
+					if len(bad) > 0 {
+						st, d = report.Violated, fmt.Sprintf("after %s answered false the chunk step can return at %v with something other than %s", pr.method, dedupe(bad), pr.what)
+					} else if nRet == 0 {
+						st, d = report.Undecided, "no return reached from the probe"
+					}
+					R.Add("T.classify", fmt.Sprintf("%s / %s false", shortFn(f), pr.method), c.P.RelPos(call.Pos()), st, d)
+				}
+			}
+		}
+		if n == 0 {
+			R.Add("T.classify", shortFn(stage)+" / "+pr.method+" probe", c.P.RelPos(stage.Pos()), report.Violated, "the chunk step does not consult "+pr.method)
+		}
+	}
+	R.Require("T.classify", 2, "")
 }
